@@ -45,7 +45,7 @@ def gen_cases(ctx):
     if os.path.isdir(cdir):
         for f in sorted(os.listdir(cdir)):
             c = json.load(open(os.path.join(cdir, f)))
-            out.append((c["case"], c["meta"]))
+            out.append((c["case"], unjson_meta(c["meta"])))
     st = H.gen_stream(rng, 0, force="grpc-req-only")
     add([st], "witness-grpc-request-half-only", others=False)
     st = H.gen_stream(rng, 0, force="grpc-status-only")
@@ -262,6 +262,22 @@ def unjson_meta(meta):
     return m
 
 
+def two_size_updates(case):
+    """Two HPACK dynamic-table-size updates at the start of one header block (legal: RFC 7541 4.2
+    allows the minimum and the final size) on a half whose dynamic table is not empty."""
+    h2 = case.get("h2") or {}
+    for side in ("client", "server"):
+        pending, seen_headers = 0, False
+        for op in h2.get(side) or []:
+            if op.get("t") == "tablesize":
+                pending += 1
+            elif op.get("t") == "headers":
+                if pending >= 2 and seen_headers:
+                    return True
+                pending, seen_headers = 0, True
+    return False
+
+
 def run(ctx):
     ctx.build_harness()
     if not ctx.harness_tagged:
@@ -284,6 +300,8 @@ def run(ctx):
         nontrivial = len(streams) >= 2 or any(len(st["req_body"]) + len(st["resp_body"]) > 0 for st in streams)
         ctx.count_case(("h2", json.dumps(case, sort_keys=True)), nontrivial, meta["kind"].split("-")[0] if meta["kind"].startswith("cap") else meta["kind"])
         new = [d for cls, d in devs if cls is None or not ctx.is_known(cls)]
+        if new and two_size_updates(case) and ctx.is_known("h2-hpack-two-size-updates"):
+            new = []        # the pinned hpack decoder rejects a legal header block (recorded finding)
         if new and nviol < 3:
             c2, m2 = shrink(ctx, case, meta)
             r2 = H.run_cases(ctx, [c2])[c2["id"]]
